@@ -700,10 +700,13 @@ class Interp:
                 pass
             except BreakSignal:
                 return
+            spec.ghost_step(self, fr, it, i)
             for lbl, f in spec.inv(self, fr, it, i + 1):
                 ctx.oblige(f"{tag}/preserve/{lbl}", f, kind="inv_pres", props=spec.props)
             raise PathEnd()
         ctx.assume(i == it.n)
+        if hasattr(spec, "at_exit"):
+            spec.at_exit(self, fr, it)
         self.exec_block(st.orelse)
 
     def x_While(self, st):
@@ -737,9 +740,12 @@ class Interp:
                 pass
             except BreakSignal:
                 return
+            spec.ghost_step(self, fr, None, None)
             for lbl, f in spec.inv(self, fr, None, None):
                 ctx.oblige(f"{tag}/preserve/{lbl}", f, kind="inv_pres", props=spec.props)
             raise PathEnd()
+        if hasattr(spec, "at_exit"):
+            spec.at_exit(self, fr, None)
 
     # ------------------------------------------------------------------ expressions
     def eval(self, e):
